@@ -478,6 +478,77 @@ def _harness(progs, flagsets, hidden):
 _PROGS = {}
 
 
+# ------------------------------------------------------------------ BODY / TEXT
+# re.escape of symbolic bytes is not modelled, so the search strings and the message texts come from a small concrete
+# vocabulary; which word sits where in which message and which key is asked is drawn by the engine.
+BT_WORDS = ['alpha', 'bravo', 'Quagga']
+BT_PLACES = ['nowhere', 'subject', 'other_header', 'body', 'header_and_body', 'attachment_header', 'attachment_text']
+
+
+def body_text_message(word, place):
+    hdr = b'From: a@b\r\n'
+    body = b'plain text\r\n'
+    w = word.encode()
+    if place in ('subject', 'header_and_body'):
+        hdr += b'Subject: about ' + w + b'\r\n'
+    if place == 'other_header':
+        hdr += b'X-Thing: ' + w + b'\r\n'
+    if place in ('body', 'header_and_body'):
+        body = b'some ' + w.upper() + b' here\r\n'
+    if place in ('attachment_header', 'attachment_text'):
+        hdr += b'Content-Type: multipart/mixed; boundary=zz\r\n'
+        part_hdr = b'Content-Type: text/plain\r\n'
+        part_body = b'inner\r\n'
+        if place == 'attachment_header':
+            part_hdr += b'Content-Description: ' + w + b'\r\n'
+        else:
+            part_body = b'inner ' + w + b'\r\n'
+        body = b'--zz\r\n' + part_hdr + b'\r\n' + part_body + b'--zz--\r\n'
+    return hdr + b'\r\n' + body
+
+
+def body_text(g, sim, places, key, word, uidcmd):
+    """two messages, the word placed as drawn; SEARCH BODY / TEXT <word>: BODY looks at the body of the message only
+    (the MIME headers of its parts are body), TEXT at header or body (RFC 3501 6.4.4); case-insensitive"""
+    w = sim.World(g, 1)
+    for pl in places:
+        w.append(0, literal=body_text_message(BT_WORDS[0] if False else word, pl))
+    w.select(0)
+    line = b'a %sSEARCH %s "%s"\r\n' % (b'UID ' if uidcmd else b'', key.encode(), word.lower().encode())
+    cmd, rest = g['Commands']().parse(memoryview(line), g['Params']())
+    cond, resp = w.run(0, cmd)
+    if cond != 'OK':
+        return 'SEARCH answered %s' % cond
+    got = None
+    for r in resp._untagged:
+        if isinstance(r, g['SearchResponse']):
+            got = sorted(int(x) for x in r.seqs)
+    if got is None:
+        return 'no SEARCH response'
+    in_body = ('body', 'header_and_body', 'attachment_header', 'attachment_text')
+    in_text = in_body + ('subject', 'other_header')
+    view = w.server_view(0)
+    want = []
+    for i, pl in enumerate(places):
+        if pl in (in_body if key == 'BODY' else in_text):
+            want.append(int(view[i]) if uidcmd else i + 1)
+    if got != sorted(want):
+        return 'SEARCH %s %r with the word in %r returned %r, expected %r' % (key, word.lower(), places, got, sorted(want))
+    return None
+
+
+def _h_body_text():
+    def fn(eng):
+        from pysymex import Outcome
+        places = [BT_PLACES[eng.choose('p%d' % i, len(BT_PLACES))] for i in range(2)]
+        key = ['BODY', 'TEXT'][eng.choose('key', 2)]
+        word = BT_WORDS[eng.choose('word', len(BT_WORDS))]
+        uidcmd = bool(eng.flip('uid'))
+        err = body_text(_g, _g['_sim'], places, key, word, uidcmd)
+        return Outcome(err is None, witness=lambda m: {'places': places, 'key': key, 'word': word, 'uidcmd': uidcmd}, info=err)
+    return fn
+
+
 def harnesses(tier):
     from pysymex.runner import Harness
     q = tier == 'quick'
@@ -498,6 +569,10 @@ def harnesses(tier):
                       {'messages': len(fsets[0]), 'programs': len(twin_programs()), 'operands': 'concrete, drawn by the engine',
                        'what': 'a sequence-set key and a UID-set key with the same or different text, side by side'},
                       replay='wire', task_budget=60))
+    hs.append(Harness('body_text_keys', _h_body_text(),
+                      {'messages': 2, 'word_places': BT_PLACES, 'keys': ['BODY', 'TEXT'], 'words': BT_WORDS,
+                       'what': 'concrete vocabulary (re.escape of symbolic bytes is not modelled); combination drawn by the engine'},
+                      replay='bodytext', task_budget=60))
     hs.append(Harness('search_hidden_expunge', _harness(progs, fsets[0], True),
                       {'messages': len(fsets[0]), 'programs': len(progs), 'hidden_expunged': 1},
                       replay='search:%s' % tier, task_budget=40))
@@ -509,6 +584,12 @@ def replay(harness, w):
     g = _sim.bindings()
     from pymap.frozen import frozenlist
     g['frozenlist'] = frozenlist
+    if harness == 'bodytext':
+        from pymap.parsing.commands import Commands
+        from pymap.parsing import Params
+        g.update({'Commands': Commands, 'Params': Params})
+        err = body_text(g, _sim, w['places'], w['key'], w['word'], w['uidcmd'])
+        return {'violates': err is not None, 'detail': err, 'category': 'SEARCH %s: word in %s' % (w['key'], '/'.join(w['places']))}
     if harness == 'wire':
         from pymap.parsing.commands import Commands
         from pymap.parsing import Params
